@@ -38,6 +38,9 @@ def sort_seqs(x: Any) -> Any:
         y = {k: sort_seqs(v) for k, v in x.items()}
         if y.get("t") in ("list", "tuple") and isinstance(y.get("xs"), list):
             y["xs"] = sorted(y["xs"], key=lambda e: json.dumps(e, sort_keys=True))
+        if isinstance(y.get("children"), list) and isinstance(y.get("err"), dict) and y["err"].get("e") == "index":
+            # the element errors of a sequence whose order came from a set
+            y["children"] = sorted(y["children"], key=lambda e: json.dumps(e, sort_keys=True))
         return y
     if isinstance(x, list):
         return [sort_seqs(v) for v in x]
